@@ -69,6 +69,21 @@ theorem gen_bytes_unchanged (ws : List Wire) (ps : List Sl) :
   simp only [h1, h2, h3]
   exact h
 
+/-- **gen_drain_delivers_everything**: the liveness statement of Props/C15 for the regenerated
+    `chunkAssembler.Read`: a consumer that keeps calling Read with a non-empty buffer `p` reaches the
+    end of the stream after at most `bytes + messages + 1` calls and has then been handed exactly the
+    concatenation of all complete chunks. -/
+theorem gen_drain_delivers_everything (ws : List Wire) (p : Sl) (hp : 0 < p.len) :
+    let N := msgBytes (ws.map toMsg) + (ws.map toMsg).length + 1
+    let r := Gen.ChunkFlow.run (Gen.ChunkFlow.newChunkAssembler { stream := ws }) (List.replicate N p)
+    r.2.2 = true ∧ r.1.flatten = (chunks (ws.map toMsg)).flatten := by
+  intro N r
+  obtain ⟨h1, _, h3⟩ := run_eq (Gen.ChunkFlow.newChunkAssembler { stream := ws }) (List.replicate N p)
+  have h := C15.drain_delivers_everything (ws.map toMsg) p.len hp
+  simp only [(gen_fresh_per_stream ws).2, List.map_replicate] at h1 h3
+  simp only [r, N, h1, h3]
+  exact h
+
 /-- the delivered bytes are always a prefix of the concatenation of the complete chunks. -/
 theorem gen_delivered_is_prefix (ws : List Wire) (ps : List Sl) :
     (Gen.ChunkFlow.run (Gen.ChunkFlow.newChunkAssembler { stream := ws }) ps).1.flatten
